@@ -101,7 +101,7 @@ def intersection(mask_list, output_name=None):
 
 
 def subtraction(mask_list, output_name=None):
-    final_mask = cryomap.read(mask_list[0])
+    final_mask = cryomap.read(mask_list[0]).astype(float)
     for m in mask_list[1:]:
         mask = cryomap.read(m)
         final_mask -= mask
